@@ -48,6 +48,7 @@ REASONS = {
     46: "shared message: not resolvable", 47: "committed datatype header without a datatype message",
     48: "layout v4: fixed array chunk index (not followed)", 49: "layout v4: extensible array chunk index (not followed)",
     50: "layout v4: v2 B-tree chunk index (not followed)", 51: "virtual dataset layout (not followed)",
+    900: "strict walk accepts, the summary is too long to transport (more than 50000 numbers: link names of 64 kB)",
     # the structural clauses of Spec/Walk.v, one code each
     60: "clause: local heap: the free list is malformed",
     61: "clause: v1 B-tree: the root node has siblings",
